@@ -37,6 +37,7 @@ from y0.graph import NxMixedGraph
 from .ancestor_utils import (
     get_ancestors_of_counterfactual,
     get_ancestral_components,
+    get_ancestral_set_root_variable,
     minimize_counterfactual,
 )
 
@@ -2390,13 +2391,26 @@ def transport_conditional_counterfactual_query(
     )
 
     # Line 2: compute $\mathbf{D_{\ast}}$ and $\mathbf{d_{\ast}}$
+    # The ancestral components hold every outcome $Y_{\mathbf{x}}$ in the minimized form in which it appears
+    # in its own ancestral set, so the outcomes and their values are looked up under that form.
+    minimized_outcome_variable_to_value_mappings: defaultdict[Variable, set[Intervention]] = (
+        defaultdict(set)
+    )
+    for outcome_variable, outcome_values in outcome_variable_to_value_mappings.items():
+        minimized_outcome_variable_to_value_mappings[
+            get_ancestral_set_root_variable(
+                conditioned_variables=conditioned_variables,
+                ancestral_set_root_variable=outcome_variable,
+                graph=target_domain_graph,
+            )
+        ].update(outcome_values)
     (
         outcome_ancestral_component_query_in_counterfactual_factor_form,
         outcome_variable_ancestral_component_variable_names,
     ) = _transport_conditional_counterfactual_query_line_2(
         ancestral_components=ancestral_components,
-        outcome_variables=outcome_variables,
-        outcome_variable_to_value_mappings=outcome_variable_to_value_mappings,
+        outcome_variables=set(minimized_outcome_variable_to_value_mappings),
+        outcome_variable_to_value_mappings=dict(minimized_outcome_variable_to_value_mappings),
         target_domain_graph=target_domain_graph,
     )
 
